@@ -873,4 +873,3 @@ func readVecTableI(ctx *Ctx, pkg, name string) ([][]int, token.Pos, error) {
 	}
 	return out, pos, nil
 }
-
